@@ -76,6 +76,9 @@ def fit_program(prog, model=None):
                 m.fit(Xt, lab, Xt, lab)
             else:
                 m.fit(Xt, lab, np.array(v["X"], dtype=float), np.array(v["labels"], dtype=int))
+        elif prog.get("I_train") is not None:
+            # identifiers given although no pre-computed distances are in use
+            m.fit(Xt, lab, I_train=np.array(prog["I_train"], dtype=int))
         else:
             m.fit(Xt, lab)
     return m
